@@ -202,6 +202,7 @@ def run(ctx):
     ctx.guard("C16.R6", "population size through recombination", lambda: r6_population_size(ctx))
     ctx.guard("C16.R8", "own state is read under the key it was inserted with", lambda: r8_state_keys(ctx))
     ctx.guard("C16.R7", "components complete on valid input", lambda: r7_components_complete(ctx))
+    ctx.guard("C16.R10", "documented template requirements", lambda: r10_documented_requirements(ctx))
     ctx.guard("C16.R9", "equal molecules", lambda: __import__("c20").equal_molecules(ctx, "C16.R9"))
 
 
@@ -460,3 +461,44 @@ def r7_components_complete(ctx):
     ctx.floor("C16.R7", "verdicts borrowed from the operator scenario tables", px.seen, 40)
     if px.kept == 0:
         ctx.ok("C16.R7", "operator scenario tables", "no panic / error on valid scenarios", "%d verdicts from %d tables" % (px.seen, len(tables)))
+
+
+# ------------------------------------------------------------------ R10: templates accept the parameters their documentation requires
+
+def r10_documented_requirements(ctx):
+    """A template constructor that validates its parameters must accept every parameter set its documentation
+    declares valid (table below, read from the `# Requirements` doc sections): K6 evaluation of the constructor's
+    guards on parameter sets on and inside the documented bounds; no path may return Err."""
+    from absint import Interp, Sym, Agg, TOP, std_oracle, chain
+    from collmodel import coll_oracle, install
+    F = ctx.facts
+    table = [
+        ("mahf::heuristics::iwo::real_iwo", "mahf::heuristics::iwo::RealProblemParameters",
+         "initial_population_size <= max_population_size, min_number_of_seeds <= max_number_of_seeds, final_deviation <= initial_deviation",
+         [dict(initial_population_size=5, max_population_size=10, min_number_of_seeds=1, max_number_of_seeds=3, initial_deviation=0.5, final_deviation=0.01, modulation_index=3),
+          dict(initial_population_size=10, max_population_size=10, min_number_of_seeds=2, max_number_of_seeds=2, initial_deviation=0.5, final_deviation=0.5, modulation_index=3),
+          dict(initial_population_size=1, max_population_size=4, min_number_of_seeds=0, max_number_of_seeds=5, initial_deviation=1.0, final_deviation=0.0, modulation_index=2)]),
+    ]
+    n = 0
+    for key, pty, doc, sets in table:
+        fn = F.fn(key)
+        fields = {f["name"]: f["i"] for f in F.adt(pty)["variants"][0]["fields"]}
+        bad = []
+        for ps in sets:
+            if set(ps) != set(fields):
+                raise AnchorMissing("parameter struct %s changed: %s" % (pty, sorted(fields)))
+            vals = [None] * len(fields)
+            for k, v in ps.items():
+                vals[fields[k]] = v
+            it = install(Interp(fn.body, chain(coll_oracle, std_oracle), [Agg("adt", pty, pty.split("::")[-1], vals), Sym("condition")], facts=F, inline=lambda k: False, max_visits=4, max_paths=64))
+            n += 1
+            for p in it.run():
+                if p.end == "return" and isinstance(p.ret, Agg) and p.ret.variant == "Err":
+                    bad.append((ps, "returns an error"))
+                    break
+                if p.end in ("panic",):
+                    bad.append((ps, "panics"))
+                    break
+        ctx.check(not bad, "C16.R10", key, "accepts-documented-parameters", "parameters %s satisfy the documented requirements (%s) but the template constructor %s" % (bad[0][0] if bad else "", doc, bad[0][1] if bad else ""),
+                  detail="%d parameter sets" % len(sets), loc=fn.loc())
+    ctx.count("documented_parameter_sets", n)
